@@ -78,6 +78,20 @@ CHECKS = {
         note=COMMON_NOTE + " 64-bit collisions are outside the model.",
         technique="TLA+ edit enumeration + TLC trace validation; cross-process reproducibility",
     ),
+    "C15": dict(
+        text="SourceMap values over an alphabet of quotes, backslashes, control characters, U+2028/2029, 2-byte and astral characters are "
+             "serialised (to_json, to_writer), the document is read by an independent parser (serde_json) and logged field by field, and parsed "
+             "back through from_json / from_slice / from_reader; TLC decides the document-level relation DocOf / ValOf (omission of "
+             "sourcesContent, optional fields, null entries, missing arrays, reordered and unknown keys).",
+        note=COMMON_NOTE + " The byte-level JSON grammar is not specified in TLA+: 'an independent parser accepts it' rests on serde_json (trusted).",
+        technique="TLA+ document/value relation + TLC trace validation; independent parser in the harness",
+    ),
+    "C16": dict(
+        text="Pairs of rope expressions (nested construction programs) enumerated by TLC are evaluated on the real Rope; TLC compares every "
+             "unary observer, both binary observers in both directions and get_byte_slice for every range with the flat-string definitions of Rope.tla.",
+        note=COMMON_NOTE,
+        technique="TLA+ flat-string semantics + TLC trace validation, exhaustive small scope of construction programs",
+    ),
     "C12": dict(
         text="encode_mappings / decode_mappings are run on every mapping sequence of a small exhaustive domain, on big-value pairs per field, "
              "on grammar strings spelled by the specification (redundant continuation digits, empty segments, backward columns) and on all "
